@@ -221,7 +221,7 @@ func (w *World) GenVC(fn *ssa.Function, ct *Contract, opts ...func(*Engine)) (re
 				o.Inputs = append(append([]NamedTerm{}, res.Params...), resultTerms(rets)...)
 			}
 		}
-		if ct.HasAssigns {
+		if ct.HasAssigns && !ct.AssignsAssumed {
 			pctx := &evalCtx{e: e, f: pre, st: fr.entry, old: fr.entry, bound: map[string]EV{}, pkg: typesPkgOf(fn)}
 			e.bindLets(pctx)
 			for _, a := range ct.Assigns {
